@@ -70,7 +70,10 @@ fn trace_parent(a: &HashMap<String, String>) -> i32 {
         let why: String = stderr.lines().rev().take(6).collect::<Vec<_>>().into_iter().rev().collect::<Vec<_>>().join(" | ");
         let mut f = OpenOptions::new().append(true).create(true).open(&out).unwrap();
         // the child may have died in the middle of a line
-        writeln!(f).unwrap();
+        let ends_nl = std::fs::read(&out).map_or(true, |b| b.last().map_or(true, |&c| c == b'\n'));
+        if !ends_nl {
+            writeln!(f).unwrap();
+        }
         writeln!(
             f,
             "{}",
